@@ -4,6 +4,8 @@
    client_legal / server_legal (proofs/TlsNoSkip.v), ckey_ok / skey_ok (proofs/TlsKeys.v). *)
 From AQ Require Import lib.Base gen.TlsDispatch model.TlsSM.
 From AQ Require Import proofs.TlsDispatchLegal proofs.TlsNoSkip proofs.TlsKeys proofs.TlsSkel proofs.TlsExamples.
+From AQ Require Import model.StreamRecv gen.TlsQuicGen model.TlsQuic.
+From AQ Require Import proofs.TlsQuicSkel proofs.TlsQuicP proofs.TlsQuicEpoch proofs.TlsQuicStream proofs.TlsQuicFrag proofs.TlsQuicBytes.
 
 (* all 13 states x all 256 type bytes: the generated table is TLS 1.3's legal-next relation; every
    other pair is refused with unexpected_message (10), state and keys unchanged *)
@@ -63,3 +65,104 @@ Theorem handler_skeletons_as_modelled :
   (forall h c s m, follows h s (run_handler h c s m) = true).
 Proof. exact (conj skeleton_as_modelled model_follows_skeleton). Qed.
 Print Assumptions handler_skeletons_as_modelled.
+
+(* ================= connection level (model/TlsQuic.v) ======================================================= *)
+
+(* tie of the connection-level model to the current source: _handle_crypto_frame, _update_traffic_key, _discard_epoch and
+   tls.Context.handle_message are, statement for statement (logging aside), the ones the model was transcribed from;
+   get_epoch is the identity on Initial / 0-RTT / Handshake and maps everything else to 1-RTT; CRYPTO frames are accepted
+   in Initial, Handshake and 1-RTT packets only *)
+Theorem quic_skeletons_as_modelled :
+  sk_handle_crypto_frame = pinned_handle_crypto_frame /\
+  sk_update_traffic_key = pinned_update_traffic_key /\
+  sk_discard_epoch = pinned_discard_epoch /\
+  sk_handle_message = pinned_handle_message /\
+  get_epoch_table = [(0, 0); (1, 1); (2, 2); (3, 3); (4, 3); (5, 3)] /\
+  crypto_frame_epochs = [0; 2; 3] /\
+  MAX_HANDSHAKE_MESSAGE_SIZE <= MAX_PENDING_CRYPTO /\ QEC_CRYPTO_ERROR = 256.
+Proof. exact quic_skeletons_as_modelled_lemma. Qed.
+Print Assumptions quic_skeletons_as_modelled.
+
+(* every run of the connection (either variant of the model, client or server, any configuration, any oracle answers,
+   any packets): its TLS engine only makes TlsSM steps from the start state of the theorems above; a packet protection
+   key other than the Initial ones is installed only by a key callback of such a step, to which keys_after_authentication
+   applies (ckey_ok / skey_ok); the 1-RTT receive key and HandshakeCompleted only after the legal flight; until then every
+   1-RTT packet is dropped *)
+Theorem keys_after_authentication_quic :
+  forall patched cl cfg0 orcs ops,
+    let c := run_conn patched (conn_init cl cfg0 orcs) ops in
+    let s0 := start_of cl cfg0 in
+    tls_log c = run cfg0 s0 (map ev_msg (tls_log c)) /\ q_tls c = final s0 (tls_log c) /\
+    (forall e, e <> EP_INITIAL -> kget (q_rk c) e = true ->
+       exists pre m o s' ks post d, tls_log c = pre ++ (m, o, s', ks) :: post /\ In (d, e) ks /\ d <> DIR_ENCRYPT /\
+         if cl then ckey_ok cfg0 (accepted pre) m o (d, e) else skey_ok cfg0 (accepted pre) m o (d, e)) /\
+    (forall e, e = EP_HANDSHAKE \/ e = EP_ONE_RTT -> kget (q_sk c) e = true ->
+       exists pre m o s' ks post, tls_log c = pre ++ (m, o, s', ks) :: post /\ In (DIR_ENCRYPT, e) ks /\
+         if cl then ckey_ok cfg0 (accepted pre) m o (DIR_ENCRYPT, e) else skey_ok cfg0 (accepted pre) m o (DIR_ENCRYPT, e)) /\
+    (kget (q_rk c) EP_ONE_RTT = true -> role_legal cl cfg0 (accepted (tls_log c))) /\
+    (q_complete c = true -> role_legal cl cfg0 (accepted (tls_log c))) /\
+    (kget (q_rk c) EP_ONE_RTT = false -> q_closed c = None ->
+       forall frames, receive_packet patched c PT_ONE_RTT frames = (PDropped, c)).
+Proof. exact keys_after_authentication_quic_lemma. Qed.
+Print Assumptions keys_after_authentication_quic.
+
+(* the epoch rule (RFC 9001 4.1.3: every handshake message from the CRYPTO stream of the level the TLS state expects)
+   does NOT hold for the tree as it is: a client completes on ServerHello .. Finished carried by Initial packets only, a
+   server on a client Finished in an Initial packet *)
+Theorem crypto_epoch_isolated_refuted :
+  ~ crypto_epoch_isolated_stmt false /\
+  (exists cfg0 orcs ops, let c := run_conn false (conn_init true cfg0 orcs) ops in
+     Forall (fun op => fst op = PT_INITIAL) ops /\ q_complete c = true /\ s_state (q_tls c) = CLIENT_POST_HANDSHAKE /\
+     kget (q_rk c) EP_ONE_RTT = true /\ map (fun x => m_type (ev_msg (snd x))) (q_log c) = [2; 8; 11; 15; 20] /\
+     Forall (fun x => fst x = EP_INITIAL) (q_log c)) /\
+  (exists cfg0 orcs ops, let c := run_conn false (conn_init false cfg0 orcs) ops in
+     Forall (fun op => fst op = PT_INITIAL) ops /\ q_complete c = true /\ s_state (q_tls c) = SERVER_POST_HANDSHAKE /\
+     kget (q_rk c) EP_ONE_RTT = true /\ map (fun x => m_type (ev_msg (snd x))) (q_log c) = [1; 20] /\
+     Forall (fun x => fst x = EP_INITIAL) (q_log c)).
+Proof. exact crypto_epoch_isolated_refuted_lemma. Qed.
+Print Assumptions crypto_epoch_isolated_refuted.
+
+(* ... and holds for the repaired handle_message (docs/C11-fix-1.patch), for every run *)
+Theorem crypto_epoch_isolated_patched :
+  forall cl cfg0 orcs ops,
+    epochs_ok (start_of cl cfg0) (q_log (run_conn true (conn_init cl cfg0 orcs) ops)).
+Proof. exact crypto_epoch_isolated_patched_lemma. Qed.
+Print Assumptions crypto_epoch_isolated_patched.
+
+(* (every packet sent so far carried bytes: ops_bytes; the stream of epoch e has delivered all it received: flat base)
+   any cutting of a byte string B into CRYPTO frames of one packet -- any order, overlaps, repetitions, as long as every
+   frame carries B's bytes for its offsets and every offset is covered -- has the TLS outcome of B in one frame: same
+   verdict / close code, same Context.state, same dispatched messages with their outcomes and key callbacks (through the
+   C10 receiver refinement frame_refines and the chunk-independence of handle_message's loop) *)
+Theorem fragmentation_independent :
+  forall patched cl cfg0 orcs ops e base B fs,
+    let c := run_conn patched (conn_init cl cfg0 orcs) ops in
+    ops_bytes ops -> stream_of c e = flat base -> 0 <= base ->
+    bytes_ok B -> B <> [] -> base + Zlen B <= UINT_VAR_MAX -> Zlen B <= MAX_PENDING_CRYPTO ->
+    Forall (fun f => slice_of B base (fst f) (snd f)) fs ->
+    (forall o, base <= o < base + Zlen B -> Exists (covers o) fs) ->
+    fview (frames_loop patched e c fs) = fview (frames_loop patched e c [(base, B)]).
+Proof. exact fragmentation_independent_reach. Qed.
+Print Assumptions fragmentation_independent.
+
+(* the same when the frames are spread over several PACKETS: a client that receives Handshake packets (its Handshake
+   receive key installed, no close pending) ends, packet after packet, where it ends on B in one frame of one packet: the
+   same close state / close code and the same TLS state, dispatched messages, outcomes, key callbacks *)
+Theorem fragmentation_independent_packets :
+  forall patched cfg0 orcs ops base B pkts,
+    let c := run_conn patched (conn_init true cfg0 orcs) ops in
+    ops_bytes ops -> q_closed c = None -> kget (q_rk c) EP_HANDSHAKE = true ->
+    stream_of c EP_HANDSHAKE = flat base -> 0 <= base ->
+    bytes_ok B -> B <> [] -> base + Zlen B <= UINT_VAR_MAX -> Zlen B <= MAX_PENDING_CRYPTO ->
+    Forall (fun f : list (Z * list Z) => f <> []) pkts ->
+    Forall (fun f => slice_of B base (fst f) (snd f)) (concat pkts) ->
+    (forall o, base <= o < base + Zlen B -> Exists (covers o) (concat pkts)) ->
+    let W := frames_loop patched EP_HANDSHAKE c [(base, B)] in
+    let cf := run_conn patched c (map (fun f => (PT_HANDSHAKE, f)) pkts) in
+    match fst W with
+    | FOk => q_closed cf = None /\ tlsproj cf = tlsproj (snd W)
+    | FClose code => q_closed cf = Some code /\ tlsproj (forget cf) = tlsproj (forget (snd W))
+    | FExn _ => True
+    end.
+Proof. exact fragmentation_independent_packets_reach. Qed.
+Print Assumptions fragmentation_independent_packets.
